@@ -27,6 +27,12 @@ with a reference automaton written from the dialect documentation:
                   inside a comment: NUL        IncompleteInput
                   anything else                Ok, left under the cursor
 
+  array           '[' WS ( ']' | V WS ( ',' V WS )* ']' )      V = nested value, K = key, WS = separator run:
+  object          '{' WS ( '}' | K WS ':' V WS ( ',' WS K WS ':' V WS )* '}' )
+                                               opaque tokens (each decided on its own: separators and strings above,
+                                               nested values by induction); parseArray/skipArray/parseObject/skipObject
+                                               for both filter kinds; NoMemory/TooDeep may end the scan anywhere
+
 A mismatch names the class string that reaches it.
 """
 from lib import scanfsm
@@ -233,6 +239,7 @@ def run(ctx, prog, rule="R-SCAN"):
         report(ctx, rule, inst, fn, res)
     ctx.floor(rule, "skipSpacesAndComments", len(fns), 1)
     run_parsed(ctx, prog, rule)
+    run_containers(ctx, prog, rule)
     ctx.doc(rule, "scanning routines conform to reference automata over character classes (finite-state abstraction, all input strings)")
 
 
@@ -248,3 +255,129 @@ def report(ctx, rule, inst, fn, res):
         ctx.ob(rule, inst, True if ok else None, fn.where,
                "%d configurations explored, %d returns and %d cursor advances reached, all agree with the reference automaton" %
                (res.configs, res.returns, res.moves))
+
+
+# ---------------------------------------------------------------------------
+# container level: arrays and objects against the grammar, with nested
+# values, keys and separator runs as opaque tokens (each decided elsewhere:
+# R-SCAN above for separators and strings; nested values by induction)
+
+WSCH = (32, 9, 13, 10)
+ERR_IN = {"IncompleteInput", "InvalidInput", "EmptyInput"}
+
+
+def spec_array():
+    """'[' WS? ( ']' | V WS ( ',' V WS )* ']' )  — a skipped array may omit
+    the first WS and the empty test: its V is then an empty value."""
+    def step(s, t):
+        if s == "open":
+            return ("consume", "first") if t == ord("[") else ("stop", {"InvalidInput"})
+        if s == "first":            # after '['
+            if t == "WS":
+                return ("consume", "first")
+            if t == ord("]"):
+                return ("consume-stop", {"Ok"})
+            if t == "V":
+                return ("consume", "after")
+            return ("stop", {"InvalidInput"})
+        if s == "after":            # after a value
+            if t == "WS":
+                return ("consume", "after")
+            if t == ord("]"):
+                return ("consume-stop", {"Ok"})
+            if t == ord(","):
+                return ("consume", "need")
+            return ("stop", {"InvalidInput"})
+        if s == "need":             # after ',': a value must follow
+            if t == "V":
+                return ("consume", "after")
+            if t == "WS":
+                return ("consume", "need")
+            return ("stop", {"InvalidInput"})
+        raise KeyError(s)
+    return step
+
+
+def spec_object():
+    """'{' WS ( '}' | K WS ':' V WS ( ',' WS K WS ':' V WS )* '}' )"""
+    def step(s, t):
+        if s == "open":
+            return ("consume", "first") if t == ord("{") else ("stop", {"InvalidInput"})
+        if s == "first":
+            if t == "WS":
+                return ("consume", "first")
+            if t == ord("}"):
+                return ("consume-stop", {"Ok"})
+            if t == "K":
+                return ("consume", "colon")
+            return ("stop", {"InvalidInput"})
+        if s == "colon":
+            if t == "WS":
+                return ("consume", "colon")
+            if t == ord(":"):
+                return ("consume", "value")
+            return ("stop", {"InvalidInput"})
+        if s == "value":
+            if t == "V":
+                return ("consume", "after")
+            if t == "WS":
+                return ("consume", "value")
+            return ("stop", {"InvalidInput"})
+        if s == "after":
+            if t == "WS":
+                return ("consume", "after")
+            if t == ord("}"):
+                return ("consume-stop", {"Ok"})
+            if t == ord(","):
+                return ("consume", "key")
+            return ("stop", {"InvalidInput"})
+        if s == "key":
+            if t == "WS":
+                return ("consume", "key")
+            if t == "K":
+                return ("consume", "colon")
+            return ("stop", {"InvalidInput"})
+        raise KeyError(s)
+    return step
+
+
+def run_containers(ctx, prog, rule="R-SCAN"):
+    from rules import unicode
+    unicode._memo(ctx, prog, "scan-containers",
+                  ["JsonDeserializer::parseArray", "JsonDeserializer::skipArray", "JsonDeserializer::parseObject", "JsonDeserializer::skipObject",
+                   "JsonDeserializer::eat"], lambda c_, p_: _run_containers(c_, p_, rule))
+
+
+def _run_containers(ctx, prog, rule):
+    E = {}
+    for e in prog.enum("DeserializationError::Code"):
+        for c in e["consts"]:
+            E[c["n"]] = int(c["v"])
+    alphabet = sorted({0, 32, ord("["), ord("]"), ord("{"), ord("}"), ord(","), ord(":"), ord('"'), ord("1"), ord("x"), ord("/")})
+
+    def after_ws(alpha, head):
+        return [h for h in alpha if h not in WSCH and h != 0]
+
+    def anyhead(alpha, head):
+        return list(alpha)
+    opaque = {
+        "skipSpacesAndComments": ("WS", ERR_IN, after_ws),
+        "parseVariant": ("V", ERR_IN | {"NoMemory", "TooDeep"}, anyhead),
+        "skipVariant": ("V", ERR_IN | {"NoMemory", "TooDeep"}, anyhead),
+        "parseKey": ("K", ERR_IN | {"NoMemory"}, anyhead),
+        "skipKey": ("K", ERR_IN | {"NoMemory"}, anyhead),
+    }
+    n = 0
+    for nm, spec, opener in (("parseArray", spec_array, "["), ("skipArray", spec_array, "["),
+                             ("parseObject", spec_object, "{"), ("skipObject", spec_object, "{")):
+        fns = sorted(prog.q("JsonDeserializer::" + nm), key=lambda f: f.key)
+        chosen = {}
+        for f in fns:
+            fk = "Filter" if ("DeserializationOption::Filter" in f.key and "AllowAllFilter" not in f.key) else "AllowAll"
+            chosen.setdefault(fk if nm.startswith("parse") else "", f)
+        for fk, fn in sorted(chosen.items()):
+            n += 1
+            res = scanfsm.explore2(prog, fn, alphabet, {}, "open", spec(), [ord(opener)], E, opaque=opaque, anywhere=("NoMemory", "TooDeep"))
+            inst = "%s%s conforms to the %s grammar" % (nm, "[%s]" % fk if fk else "", "array" if "Array" in nm else "object")
+            report(ctx, rule, inst, fn, res)
+    ctx.floor(rule, "container routines", n, 4)
